@@ -27,9 +27,41 @@ func c17Mapping() mapping.IndexMapping {
 var wholeSecondDates = []time.Time{baseTime, baseTime.Add(time.Second), baseTime.Add(-time.Second), baseTime.Add(24 * time.Hour),
 	time.Date(1970, 1, 1, 0, 0, 0, 0, time.UTC), time.Date(2200, 6, 1, 0, 0, 0, 0, time.UTC)}
 
+// addBoosts decorates every node of a query tree with options the Q tree does not carry:
+// boosts, and automatic fuzziness on the query kinds that accept it.
 func addBoosts(t *rapid.T, q query.Query) {
+	if q == nil {
+		return
+	}
 	if bq, ok := q.(query.BoostableQuery); ok && rapid.IntRange(0, 3).Draw(t, "boost?") == 0 {
 		bq.SetBoost(rapid.SampledFrom([]float64{0.5, 2, 3.25}).Draw(t, "boost"))
+	}
+	switch x := q.(type) {
+	case *query.FuzzyQuery:
+		if rapid.IntRange(0, 2).Draw(t, "autoFuzzy") == 0 {
+			x.SetAutoFuzziness(true)
+		}
+	case *query.MatchQuery:
+		if rapid.IntRange(0, 3).Draw(t, "autoFuzzyMatch") == 0 {
+			x.SetAutoFuzziness(true)
+		}
+	case *query.MatchPhraseQuery:
+		if rapid.IntRange(0, 3).Draw(t, "autoFuzzyPhrase") == 0 {
+			x.SetAutoFuzziness(true)
+		}
+	case *query.ConjunctionQuery:
+		for _, c := range x.Conjuncts {
+			addBoosts(t, c)
+		}
+	case *query.DisjunctionQuery:
+		for _, c := range x.Disjuncts {
+			addBoosts(t, c)
+		}
+	case *query.BooleanQuery:
+		addBoosts(t, x.Must)
+		addBoosts(t, x.Should)
+		addBoosts(t, x.MustNot)
+		addBoosts(t, x.Filter)
 	}
 }
 
